@@ -1488,35 +1488,54 @@ def i_TZCNT(i, fmap):
     fmap[zf] = x.bit(0)  # no trailing zero
 
 
+# BT/BTS/BTR/BTC operands: (location, its value, index of the selected bit)
+def _bt_(i, fmap):
+    dst, src = i.operands
+    w = dst.size
+    if dst._is_mem and not src._is_cst:
+        # bit string in memory: the signed register offset also selects
+        # the word, (offset div w) words away from the address.
+        # (// is the arithmetic shift right)
+        k = (src // {16: 4, 32: 5, 64: 6}[w]) * (w // 8)
+        adr = dst.a.base
+        if k.size < adr.size:
+            k = k.signextend(adr.size)
+        dst = mem(adr + k[0 : adr.size], w, dst.a.seg, dst.a.disp)
+    n = fmap(src).zeroextend(w) & (w - 1)
+    return dst, fmap(dst), n
+
+
 def i_BT(i, fmap):
-    logger.warning("%s semantic is not defined" % i.mnemonic)
     fmap[rip] = fmap[rip] + i.length
-    #dst, src = i.operands
-    fmap[cf] = top(1)
+    dst, a, n = _bt_(i, fmap)
+    fmap[cf] = (a >> n).bit(0)
 
 
 def i_BTC(i, fmap):
-    logger.warning("%s semantic is not defined" % i.mnemonic)
     fmap[rip] = fmap[rip] + i.length
-    dst, _ = i.operands
-    fmap[cf] = top(1)
-    fmap[dst] = top(dst.size)
+    dst, a, n = _bt_(i, fmap)
+    fmap[cf] = (a >> n).bit(0)
+    x = a ^ (cst(1, a.size) << n)
+    dst, x = _r32_zx64(dst, x)
+    fmap[dst] = x
 
 
 def i_BTR(i, fmap):
-    logger.warning("%s semantic is not defined" % i.mnemonic)
     fmap[rip] = fmap[rip] + i.length
-    dst, _ = i.operands
-    fmap[cf] = top(1)
-    fmap[dst] = top(dst.size)
+    dst, a, n = _bt_(i, fmap)
+    fmap[cf] = (a >> n).bit(0)
+    x = a & ~(cst(1, a.size) << n)
+    dst, x = _r32_zx64(dst, x)
+    fmap[dst] = x
 
 
 def i_BTS(i, fmap):
-    logger.warning("%s semantic is not defined" % i.mnemonic)
     fmap[rip] = fmap[rip] + i.length
-    dst, _ = i.operands
-    fmap[cf] = top(1)
-    fmap[dst] = top(dst.size)
+    dst, a, n = _bt_(i, fmap)
+    fmap[cf] = (a >> n).bit(0)
+    x = a | (cst(1, a.size) << n)
+    dst, x = _r32_zx64(dst, x)
+    fmap[dst] = x
 
 
 def i_CLFLUSH(i, fmap):
